@@ -10,6 +10,7 @@ import (
 	"math/big"
 	"strconv"
 	"strings"
+	"sync"
 	"time"
 
 	"github.com/iden3/go-iden3-crypto/v2/babyjub"
@@ -191,6 +192,52 @@ func splitAt(op string) (string, string) {
 	return op, ""
 }
 
+// ---- package-constant guard: exported constants must keep their values across every op ----
+type constSnap struct {
+	name string
+	get  func() string
+	set  func(string)
+}
+
+var constSnaps []constSnap
+var constVals []string
+var constMu sync.Mutex
+
+func bigSnap(name string, p **big.Int) constSnap {
+	return constSnap{name, func() string { return (*p).String() }, func(s string) { v, _ := new(big.Int).SetString(s, 10); *p = v }}
+}
+
+func initConstGuard() {
+	constSnaps = []constSnap{
+		bigSnap("babyjub.A", &babyjub.A), bigSnap("babyjub.D", &babyjub.D), bigSnap("babyjub.Order", &babyjub.Order),
+		bigSnap("babyjub.SubOrder", &babyjub.SubOrder), bigSnap("babyjub.B8.X", &babyjub.B8.X), bigSnap("babyjub.B8.Y", &babyjub.B8.Y),
+		bigSnap("constants.Q", &constants.Q), bigSnap("constants.Zero", &constants.Zero), bigSnap("constants.One", &constants.One),
+		bigSnap("constants.MinusOne", &constants.MinusOne),
+		{"babyjub.Aff", func() string { return ffVal(babyjub.Aff) }, func(s string) { v, _ := new(big.Int).SetString(s, 10); babyjub.Aff = ff.NewElement().SetBigInt(v) }},
+		{"babyjub.Dff", func() string { return ffVal(babyjub.Dff) }, func(s string) { v, _ := new(big.Int).SetString(s, 10); babyjub.Dff = ff.NewElement().SetBigInt(v) }},
+	}
+	for _, c := range constSnaps {
+		constVals = append(constVals, c.get())
+	}
+}
+
+// constGuard returns a marker if an exported constant changed (and restores it so the run can go on)
+func constGuard() string {
+	if concurrentMode {
+		return "" // reading the constants while other goroutines run is itself racy only if someone writes them; checked at the end
+	}
+	out := ""
+	for i, c := range constSnaps {
+		if v := c.get(); v != constVals[i] {
+			out += " !CONSTMUT(" + c.name + ")"
+			c.set(constVals[i])
+		}
+	}
+	return out
+}
+
+var concurrentMode bool
+
 // execOp runs one op; panics are converted to "PANIC:<msg>".
 func execOp(line string) (res string) {
 	defer func() {
@@ -229,7 +276,7 @@ func execOp(line string) (res string) {
 		if strings.HasPrefix(r, "PANIC") || strings.HasPrefix(r, "HARNESS") {
 			return r
 		}
-		return r + a.mutated()
+		return r + a.mutated() + constGuard()
 	case <-time.After(60 * time.Second):
 		return "TIMEOUT"
 	}
@@ -444,6 +491,23 @@ func dispatch(op, pat string, args []string, a *argTrack) string {
 			return out
 		}
 		return showPt(ret) + " recv=" + showPt(recv)
+	case "bj.mulconst":
+		// r := NewPoint().Mul(s, B8) computed from the exported constant itself, then written through its
+		// documented destination; the constant guard checks that B8 is untouched
+		need(args, 1)
+		s := a.Int(args[0])
+		r := babyjub.NewPoint().Mul(s, babyjub.B8)
+		out := showPt(r)
+		r.Set(&babyjub.Point{X: big.NewInt(0), Y: big.NewInt(1)})
+		r.X.Add(r.X, big.NewInt(7))
+		return out
+	case "bj.addconst":
+		need(args, 0)
+		r := babyjub.NewPointProjective().Add(babyjub.B8.Projective(), babyjub.B8.Projective()).Affine()
+		out := showPt(r)
+		r.X.SetInt64(3)
+		r.Y.SetInt64(4)
+		return out
 	case "bj.incurve":
 		need(args, 2)
 		p := &babyjub.Point{X: a.Int(args[0]), Y: a.Int(args[1])}
@@ -476,7 +540,10 @@ func dispatch(op, pat string, args []string, a *argTrack) string {
 			if ret != nil {
 				return classify(err) + "!nonnil-result"
 			}
-			return classify(err)
+			return classify(err) + " recv=" + showPt(recv)
+		}
+		if ret != recv {
+			return showPt(ret) + " recv=" + showPt(recv) + "!returned-other-object"
 		}
 		return showPt(ret) + " recv=" + showPt(recv)
 	case "bj.pfsy":
